@@ -72,7 +72,15 @@ def has_operator_token_as_operand(t):
     return False
 
 
-def root_cause(sql, tree):
+FETCH_INTO_RE = re.compile(r"\bfetch\s+[\w.`\"]+\s+into\s+([^;]*)", re.I)
+
+
+def root_cause(sql, tree, span=None):
+    if span is not None:
+        # `FETCH cursor INTO a, b`: the grammar does not name the target list, every target is forgotten
+        for m in FETCH_INTO_RE.finditer(sql):
+            if m.start(1) <= span[0] and span[1] <= m.end(1):
+                return "dropped:fetch-into-targets"
     if has_operator_token_as_operand(tree):
         return "dropped:prefix-operator-right-of-tighter-operator"
     if re.search(r"\bfilter\s*\(.*\)\s*over\b", sql, re.I | re.S):
@@ -100,6 +108,25 @@ def run(ctx, scale=1):
         "insert into t1 (c2, c3) values (4, 's5'), (6, 's7')", "update t1 set c2 = 3, c4 = 's5' where c6 = 7",
         "create table t1 (c2 int not null default 3, c4 varchar(10) default 's5', primary key (c2))",
     ]]
+    # the same statements with comments between tokens (several per statement: an identifier must not get lost
+    # between two comments either)
+    from props import c09
+    COMMENTS = ["/* x */", "/** h **/", "/***/", "/****/", "-- y\n", "# z\n", "/* a\n * b\n **/", "/*****/"]
+    commented = []
+    for st in ctx.rng.sample(stmts, min(len(stmts), (250 if ctx.quick else 4000) * scale)):
+        lx = c09.lex(st["sql"])
+        if not lx or "\\" in st["sql"] or "@" in st["sql"]:
+            continue
+        gaps = [k for k, (kind, text, pos) in enumerate(lx) if kind == "ws" and 0 < k < len(lx) - 1
+                and lx[k - 1][0] != "cm" and lx[k + 1][0] != "cm"]
+        if len(gaps) < 2:
+            continue
+        pick = set(ctx.rng.sample(gaps, min(len(gaps), ctx.rng.choice([2, 2, 3]))))
+        out = []
+        for k, (kind, text, pos) in enumerate(lx):
+            out.append((" " + ctx.rng.choice(COMMENTS) + " ") if k in pick else text)
+        commented.append({"sql": "".join(out), "dialect": st["dialect"], "origin": "commented"})
+    stmts += commented
     n_sub = 0
     for st in stmts:
         sql = st["sql"]
@@ -143,7 +170,7 @@ def run(ctx, scale=1):
             if not contains(r[1], "num" if k2 == "num" else k2, fresh_v):
                 prev = [t[3].upper() for t in toks[max(0, i - 3):i]]
                 ctxt = next((p for p in reversed(prev) if p.lower() in kw or not p[0].isalnum()), prev[-1] if prev else "START")
-                key = root_cause(new_sql, r[1]) or "dropped:%s:after:%s" % (k2, ctxt[:12])
+                key = root_cause(new_sql, r[1], (a, a + len(fresh_text))) or "dropped:%s:after:%s" % (k2, ctxt[:12])
                 rep.count("finding", key)
                 rep.finding(key, "parse(%r) is accepted but %s is not in the tree %s" % (new_sql[:200], fresh_text, C.cdump(C.canon(r[1]))[:240]),
                             {"sql": new_sql, "dialect": st["dialect"], "fresh": fresh_v if not isinstance(fresh_v, float) else fresh_v, "kind": k2})
